@@ -776,6 +776,98 @@ func runC20(c *Ctx) {
 			}
 		}
 	}
+	// ---------- a signer that succeeds although something around it hiccupped ----------
+	// (a DER-shaped result from an application signer is just bytes to the library; an entropy source that
+	// fails once while the signer carries on is the signer's business): the call is a clean success, or a
+	// clean failure that stores and emits nothing - never an error together with a stored signature
+	{
+		derLike := []byte{0x30, 0x44, 0x02, 0x20}
+		derLike = append(derLike, bytesOf(0x11, 32)...)
+		derLike = append(derLike, 0x02, 0x20)
+		derLike = append(derLike, bytesOf(0x22, 32)...)
+		type variant struct {
+			name   string
+			signer func() cose.Signer
+			rand   func() io.Reader
+		}
+		variants := []variant{
+			{"der-shaped-output", func() cose.Signer { return &mon.SpySigner{Alg: alg, Out: derLike} }, func() io.Reader { return gen.Entropy }},
+			{"der-shaped-output/ES384", func() cose.Signer { return &mon.SpySigner{Alg: cose.AlgorithmES384, Out: derLike} }, func() io.Reader { return gen.Entropy }},
+			{"entropy-fails-once/best-effort-signer", func() cose.Signer { return &mon.SpySigner{Alg: alg, ReadN: 8, BestEffortRand: true} }, func() io.Reader { return &mon.FaultReader{Src: gen.Entropy, After: 0, Once: true} }},
+			{"entropy-fails-once-after-4/best-effort-signer", func() cose.Signer { return &mon.SpySigner{Alg: alg, ReadN: 16, BestEffortRand: true} }, func() io.Reader { return &mon.FaultReader{Src: gen.Entropy, After: 4, Once: true} }},
+			{"entropy-always-fails/best-effort-signer", func() cose.Signer { return &mon.SpySigner{Alg: alg, ReadN: 8, BestEffortRand: true} }, func() io.Reader { return &mon.FaultReader{Src: gen.Entropy, After: 0} }},
+		}
+		parent := &cose.Sign1Message{Headers: cose.Headers{Protected: cose.ProtectedHeader{int64(1): alg}}, Payload: []byte("parent"), Signature: mon.FixedSig}
+		for _, v := range variants {
+			sg := v.signer()
+			hd := func() cose.Headers {
+				return cose.Headers{Protected: cose.ProtectedHeader{int64(1): sg.Algorithm()}, Unprotected: cose.UnprotectedHeader{}}
+			}
+			type res struct {
+				err    error
+				bytes  []byte
+				stored []byte
+				emit   func() ([]byte, error)
+			}
+			entries := map[string]func() res{
+				"Sign1Message.Sign": func() res {
+					m := &cose.Sign1Message{Headers: hd(), Payload: []byte("p")}
+					e := m.Sign(v.rand(), nil, sg)
+					return res{err: e, stored: m.Signature, emit: m.MarshalCBOR}
+				},
+				"Sign1": func() res {
+					b, e := cose.Sign1(v.rand(), sg, hd(), []byte("p"), nil)
+					return res{err: e, bytes: b}
+				},
+				"Signature.Sign": func() res {
+					s := &cose.Signature{Headers: hd()}
+					e := s.Sign(v.rand(), sg, []byte{0x40}, []byte("p"), nil)
+					return res{err: e, stored: s.Signature, emit: s.MarshalCBOR}
+				},
+				"SignMessage.Sign": func() res {
+					m := &cose.SignMessage{Headers: cose.Headers{Protected: cose.ProtectedHeader{}, Unprotected: cose.UnprotectedHeader{}}, Payload: []byte("p"), Signatures: []*cose.Signature{{Headers: hd()}}}
+					e := m.Sign(v.rand(), nil, sg)
+					return res{err: e, stored: m.Signatures[0].Signature, emit: m.MarshalCBOR}
+				},
+				"Countersignature.Sign": func() res {
+					cs := &cose.Countersignature{Headers: hd()}
+					e := cs.Sign(v.rand(), sg, parent, nil)
+					return res{err: e, stored: cs.Signature, emit: cs.MarshalCBOR}
+				},
+				"Countersign0": func() res {
+					b, e := cose.Countersign0(v.rand(), sg, parent, nil)
+					return res{err: e, bytes: b}
+				},
+			}
+			for name, run := range entries {
+				key := "succeeding-signer/" + v.name + "/" + name
+				in := map[string]any{"cell": key}
+				var r res
+				if guard(rec, name, in, func() { r = run() }) {
+					continue
+				}
+				rec.Eval(1)
+				rec.Event("succeeding-signer-cases")
+				rec.Class(fmt.Sprintf("%s/ok=%v", key, r.err == nil))
+				if r.err == nil {
+					if r.emit != nil {
+						if _, e := r.emit(); e != nil {
+							rec.Violate("ok-vector-failed", key, "signing succeeded but the object does not serialise: "+e.Error(), in)
+						}
+					}
+					continue
+				}
+				if len(r.bytes) > 0 || len(r.stored) > 0 {
+					rec.Violate("signature-stored-on-error", key, fmt.Sprintf("the call returned %v together with %d returned / %d stored signature bytes", r.err, len(r.bytes), len(r.stored)), in)
+				}
+				if r.emit != nil {
+					if out, e := r.emit(); e == nil {
+						rec.Violate("half-signed-serialised", key, "the call failed but the object serialises: "+hexs(out), in)
+					}
+				}
+			}
+		}
+	}
 	// ---------- signing an object that already holds a signature ----------
 	// the call fails and keeps the old signature, or it succeeds and holds exactly what the new signer
 	// returned: never a mixture, never an empty slot
@@ -864,3 +956,4 @@ func (o *opaqueSigner) Public() crypto.PublicKey { return o.pub }
 func (o *opaqueSigner) Sign(io.Reader, []byte, crypto.SignerOpts) ([]byte, error) {
 	return o.out, o.err
 }
+
